@@ -6,6 +6,7 @@ import (
 	"net/http"
 	"strings"
 	"sync"
+	"time"
 
 	dcp "github.com/Trendyol/go-dcp"
 	"github.com/Trendyol/go-dcp/config"
@@ -80,6 +81,11 @@ type DcpOpts struct {
 	Tweak         func(cfg *config.Dcp)
 }
 
+func isLoopbackFlake(err error) bool {
+	m := err.Error()
+	return strings.Contains(m, "dial") || strings.Contains(m, "timed out") || strings.Contains(m, "i/o timeout")
+}
+
 // NewDcpEnv runs the real constructor.
 func NewDcpEnv(c *gocbcore.SimCluster, o DcpOpts) *DcpEnv {
 	o.EnvOpts.defaults()
@@ -102,6 +108,14 @@ func NewDcpEnv(c *gocbcore.SimCluster, o DcpOpts) *DcpEnv {
 	}
 	e := &DcpEnv{O: o.EnvOpts, C: c, Cfg: cfg, Cons: NewRecConsumer(o.AutoAck), EH: &RecHandler{}}
 	d, err := dcp.NewExtendedDcp(cfg, e.Cons)
+	// The constructor asks the loopback /pools listener over real TCP with fasthttp's wall-clock dial timeout;
+	// on a starved machine that dial can time out. This is the only real-time dependency of the harness, it
+	// happens before anything is explored, and it is retried (real time) instead of being reported.
+	for try := 0; err != nil && try < 20 && isLoopbackFlake(err); try++ {
+		time.Sleep(300 * time.Millisecond) // real time
+		c.KillAgents()
+		d, err = dcp.NewExtendedDcp(cfg, e.Cons)
+	}
 	if err != nil {
 		e.Err = err
 		return e
